@@ -15,6 +15,10 @@ import tempfile
 from ..core import Ctx, generic_replay
 from ..tlc import MachineryError
 
+# Developer override (like VERIF_REPO; registered commands never set it): replay only every k-th enumerated state and
+# draw 1/k of the random cases, to try a mutant quickly.  With k > 1 no exhaustiveness is claimed.
+DEV_STRIDE = max(1, int(os.environ.get("VERIF_DEV_STRIDE", "1") or 1))
+
 ID = "C13"
 LEVEL = "model_checking"
 TRACE = "Trace_Access"
@@ -380,7 +384,7 @@ def run(ctx: Ctx):
     del states
     if len(inputs) * 2 != r.distinct:
         raise MachineryError(f"dump replay: {len(inputs)} calls parsed, TLC reports {r.distinct} states")
-    out = ctx.execute(execute, inputs)
+    out = ctx.execute(execute, inputs[::DEV_STRIDE])
     ctx.notes["regions_scope"] = {"tlc_states": r.distinct, "replayed": len(out)}
     recs += out
 
@@ -391,7 +395,7 @@ def run(ctx: Ctx):
     r, states = ctx.mc("MC_Access", cfg, timeout=3000)
     inputs = _inputs_from_states([s for s in states if s["op"] != "scan"])
     del states
-    out = ctx.execute(execute, inputs)
+    out = ctx.execute(execute, inputs[::DEV_STRIDE])
     ctx.notes["blank_line_scope"] = {"tlc_states": r.distinct, "replayed": len(out)}
     recs += out
 
@@ -404,7 +408,7 @@ def run(ctx: Ctx):
     del states
     if len(inputs) * 2 != r.distinct:
         raise MachineryError(f"dump replay: {len(inputs)} calls parsed, TLC reports {r.distinct} states")
-    out = ctx.execute(execute, inputs)
+    out = ctx.execute(execute, inputs[::DEV_STRIDE])
     ctx.notes["access_scope"] = {"scope": f"1 sequence of length <= {la} over {{N,A}} x <=2 exclude rows (1 or 2 files) x "
                                           f"min_gap 0..{ga}", "tlc_states": r.distinct, "replayed": len(out)}
     recs += out
@@ -417,7 +421,7 @@ def run(ctx: Ctx):
     r, states = ctx.mc("MC_Access", cfg, timeout=3000)
     inputs = _inputs_from_states(states)
     del states
-    out = ctx.execute(execute, inputs)
+    out = ctx.execute(execute, inputs[::DEV_STRIDE])
     ctx.notes["contigs_scope"] = {"tlc_states": r.distinct, "replayed": len(out)}
     recs += out
     ctx.exhaustive = (f"get_regions: all FASTA texts of <=2 sequences, total length <= {L}, alphabet {{N,n,A}}, every line "
@@ -426,8 +430,11 @@ def run(ctx: Ctx):
                       f"of total length <= {LC} x names {{chr1,chrM,chrUn_x}} x skip on/off x <=1 exclude row x min_gap 0..2 "
                       "-- every dumped call replayed")
 
+    if DEV_STRIDE > 1:
+        ctx.exhaustive = None
+        ctx.notes["dev_stride"] = DEV_STRIDE
     # direction 2
-    n_rand = 24000 if thorough else 2400
+    n_rand = (24000 if thorough else 2400) // DEV_STRIDE
     rnd_in = [random_input(ctx.rng, "access" if k % 3 else "regions") for k in range(n_rand)]
     rnd = ctx.execute(execute, rnd_in)
     recs += rnd
